@@ -1,3 +1,3 @@
 From Coq Require Import Extraction ExtrOcamlBasic.
 From SqfsV Require Import C05.RBase C05.Meta C05.Super C05.Inode C05.Dir C05.Data C05.Xattr C05.Run.
-Extraction "c05_model.ml" run_reader item_crash item_oof get_path.
+Extraction "c05_model.ml" run_reader run_reader_build item_crash item_oof get_path.
